@@ -29,7 +29,7 @@ for s in $SEEDS; do
 done
 # self-tests of the checks: reverts of the repairs and hand-made mutants must be detected, benign refactorings must stay quiet
 if [ $# -eq 0 ]; then
-for f in $(pick $V/selftest/reverts/*.diff $V/selftest/mutants/*.diff $V/selftest/benign_*.diff); do
+for f in $(pick $V/selftest/reverts/*.diff $V/selftest/mutants/*.diff $V/selftest/mutants/C18/*.diff $V/selftest/benign_*.diff); do
   name=$(basename $f .diff)
   cd $MX/repo && git checkout -q -- . && git apply $f 2>/dev/null || { echo "selftest $name: PATCH-DOES-NOT-APPLY"; continue; }
   fired=""
